@@ -107,6 +107,24 @@ def gen_c03(tier, seed):
         layout = G.LAYOUTS[i % len(G.LAYOUTS)]
         cases.append(G.rand_history(rng, "ownh%d" % i, layout, KINDS_RAND, 200 if q else 1200, 30 if q else 120,
                                     ranges=True, clones=True))
+    # "destroyed exactly once" also when the one destructor run panics: a dropped handle, a clear, a vector drop
+    k = 0
+    for layout in ([G.CORE_LAYOUT, (3, 1, 1)] if q else [l for l in G.LAYOUTS if l[2]]):
+        for bk in (["heap"] if q else ["heap", "reloc", "stack:512"]):
+            for L in ([3] if q else [1, 3, 4]):
+                ops = ["clear 0", "pop 0 drop", "dropvec 0", "drain 0 u u e F:drop drop", "drain 0 i0 e%d e - drop" % min(L, 2)]
+                for i in sorted(set([0, L // 2, L - 1])):
+                    ops += ["remove 0 %d drop" % i, "swapremove 0 %d drop" % i]
+                for op in ops:
+                    for f in (1, 2):
+                        c = G.Case("ownf%d" % k, layout); k += 1
+                        G.setup3(c, bk, "clone", L, rng)
+                        c.add(op, fault=f)
+                        if not op.startswith("dropvec"):
+                            for fl in FOLLOW: c.add(fl)
+                            c.finish(list(range(c.nvec)))
+                        else: c.finish([1, 2])
+                        cases.append(c)
     return cases
 
 PROPS["C03"] = {"gen": gen_c03, "proj": {}, "kinds": OWN,
@@ -132,6 +150,11 @@ def gen_c04(tier, seed):
                     ops += ["dcvec 0 %d" % to, "info 0"]
                     for hk in ("pop 0", "remove 0 0", "swapremove 0 0"):
                         ops += ["%s dc%d" % (hk, to), "%s swap%d" % (hk, to), "%s info" % hk]
+                        # tag 9 = `any_value::Unknown`, the compile-time type of every erased value: never an element type
+                        if to == tv: ops.append("%s dc9" % hk)
+                    if to == tv:
+                        ops += ["drain 0 u u e F:dc9,B:dc9 drop", "splice 0 u u e w%d +0 F:dc9 drop" % tv]
+                        if L > 0: ops += ["lazydc 0 0 1 9", "lazydc 0 %d 1 %d" % (L - 1, to)]
                     # values of vector 1 (type `to`) offered to vector 0 (type `tv`)
                     for hk in ("pop 1", "remove 1 0", "swapremove 1 1"):
                         ops += ["%s push0" % hk, "%s ins0.%d" % (hk, min(1, L)), "%s lazy0.1" % hk]
